@@ -130,7 +130,7 @@ def c20_1(ctx, ss):
             tg = [t for t in getattr(st, "targets", []) if isinstance(t, ast.Attribute)]
             if tg and txt(tg[0].value) != "cls":
                 ctx.violation("C20.3", k + " :: via-cls", where(ff, st),
-                              f"`{txt(st)}` rebinds the attribute on the base class: a subclass that already got its own `{attr}` through `cls.{attr} |= …` keeps the old set")
+                              f"`{txt(st)}` resets the attribute on the base class only: a reader subclass that already got its own `{attr}` (through `cls.{attr} = …` / `cls.{attr} |= …` in an earlier read) keeps the old value")
             elif tg:
                 ctx.holds("C20.3", k + " :: via-cls", where(ff, st), f"`{txt(st)}` rebinds through cls", 1)
     # the additions go through cls / the instance's class as well
